@@ -150,6 +150,14 @@ def _at(run, s, i):
 def _slen(run, s):
     if isinstance(s, MatV):
         return Num(mrows(s.term))
+    if isinstance(s, Ref):
+        o = run.deref(s)
+        if isinstance(o, SymListO):
+            return Num(o.length)
+        if isinstance(o, ListO):
+            return Num(len(o.items))
+        if isinstance(o, MapO):
+            return Num(T.alen(o.keys))
     return Num(seq_len(_seq(run, s)))
 
 
@@ -291,3 +299,98 @@ def _rows(run, m):
 @specfn('cols')
 def _cols(run, m):
     return Num(mcols(m.term))
+
+
+# ---------------------------------------------------------------------------------- random streams
+from . import libcalls as LC      # noqa
+
+
+def _rs(v):
+    if isinstance(v, OpaqueV):
+        return v.term
+    raise Unsupported('spec: expected a stream state')
+
+
+@specfn('rngstate')
+def _rngstate(run, rng):
+    """stream state of a _NumpyRNG object"""
+    gen = run.deref(rng).fields['rng']
+    return run.deref(gen).fields['state']
+
+
+@specfn('draw_u')
+def _draw_u(run, s):
+    return Num(LC.draw_u(_rs(s)))
+
+
+@specfn('next_u')
+def _next_u(run, s):
+    return OpaqueV(LC.next_u(_rs(s)), 'rngstate')
+
+
+@specfn('unext')
+def _unext(run, s, k):
+    """state after k scalar uniform draws"""
+    f = F('iter_next_u', smt.Rng, Int, smt.Rng)
+    return OpaqueV(f(_rs(s), intterm(k)), 'rngstate')
+
+
+@specfn('draw_uv')
+def _draw_uv(run, s, n):
+    return SeqV('R', LC.draw_uv(_rs(s), intterm(n)))
+
+
+@specfn('next_uv')
+def _next_uv(run, s, n):
+    return OpaqueV(LC.next_uv(_rs(s), intterm(n)), 'rngstate')
+
+
+@specfn('draw_um')
+def _draw_um(run, s, m, n):
+    return MatV(LC.draw_um(_rs(s), intterm(m), intterm(n)))
+
+
+@specfn('next_um')
+def _next_um(run, s, m, n):
+    return OpaqueV(LC.next_um(_rs(s), intterm(m), intterm(n)), 'rngstate')
+
+
+@specfn('mat_at')
+def _mat_at(run, M, i, j):
+    return Num(LC.mat_at(M.term, intterm(i), intterm(j)))
+
+
+@specfn('item')
+def _item(run, lst, j, kind=None):
+    """element j of a list of symbolic length"""
+    from .lib import unbox
+    o = run.deref(lst)
+    if isinstance(o, SymListO):
+        return unbox(run, o.elems[intterm(j)], kind.s if kind is not None else o.ekind)
+    raise Unsupported('item() of %r' % (o,))
+
+
+@specfn('is_dict')
+def _is_dict(run, v):
+    return BoolV(isinstance(v, Ref) and isinstance(run.deref(v), MapO))
+
+
+@specfn('is_list')
+def _is_list(run, v):
+    return BoolV(isinstance(v, Ref) and isinstance(run.deref(v), (SymListO, ListO)) or isinstance(v, SeqV))
+
+
+@form('argmax_over')
+def _argmax_over(run, n):
+    """argmax_over(arms, lambda a: expr): first arm of `arms` attaining the maximum of expr"""
+    s = _seq(run, run.ev(n.args[0]), 'A')
+    lam = n.args[1]
+    a = z3.Const('a!amo%d' % (id(lam) % 100000), Arm)
+    saved = run.frames[-1].env
+    run.frames[-1].env = dict(saved)
+    run.frames[-1].env[lam.args.args[0].arg] = ArmV(a)
+    try:
+        body = real(run.ev(lam.body))
+    finally:
+        run.frames[-1].env = saved
+    return ArmV(T.margmax(s.term, z3.Lambda([a], body)))
